@@ -307,6 +307,7 @@ def run_case(case, ctx):
         if case["t"] == "single":
             ctx.seen("single_basis_strings", (kind, case["basis"]))
     ctx.seen("kappa_decade", int(np.log10(kappa)))
+    gen.scribble_spaces(st, n)  # tensors handed out are the caller's: nothing later may depend on them
     ctx.sample({"case": case, **{k: wit[k] for k in ("rows", "bases", "kappa")}, "am": wit["am"]})
 
 
